@@ -387,6 +387,11 @@ namespace link_layer {
                 using layout_t = typename pdu_layout_by_radio< typename LinkLayer::radio_t >::pdu_layout;
 
                 bool result = details::advertising_type_base::is_valid_connect_request< layout_t >( receive, link_layer().local_address() );
+
+                // a PDU that is no connect request might be shorter than a PDU header
+                if ( !result )
+                    return false;
+
                 const auto body   = layout_t::body( receive ).first;
                 const auto header = layout_t::header( receive );
 
